@@ -412,6 +412,28 @@ def _mul(name, accumulate, param):
             cn = "C"
         else:
             lc, dc, cn = _dst(g, W, "C", m, n)
+        if W("A") is None and W("B") is None and l > 1 and g.rng.random() < 0.07:
+            # two views that share their first entry (rows of M^2, a leading block times the whole): A a window on the
+            # top rows of B, or B a window on the top-left block of A.  Distinct objects, overlapping storage, read-only.
+            if g.rng.random() < 0.6 or m < l:
+                n = l
+                rb, kb = g.rows(l, n)
+                m = g.rng.choice([1, l // 2, l - 1, g.rng.randint(1, l - 1)]) or 1
+                lb = [g.mat_line("B", l, n, rb), "win A B 0 0 %d %d" % (m, l)]
+                la, da, db = [], ["A"], ["B"]
+                ra = rb[:m]
+            else:
+                n = g.rng.choice([1, l // 2, l, g.rng.randint(1, l)]) or 1
+                la = [g.mat_line("A", m, l, ra), "win B A 0 0 %d %d" % (l, n)]
+                lb, da, db = [], ["A"], ["B"]
+                rb = [x & ((1 << n) - 1) for x in ra[:l]]
+            if accumulate:
+                rc, kc = g.rows(m, n, g.rng.choice(["dense", "zero", "ones"]))
+                lc, dc = g.operand("C", m, n, rc, None)
+            else:
+                lc, dc, cn = _dst(g, lambda role: None, "C", m, n)
+            lines = la + lb + lc + ["call %s R %s A B%s" % (name, cn, p)]
+            return _finish(lines, da + db + dc + (["R"] if cn == "-" else [])), dict(shape=(m, l, n), kinds=(ka, kb, "shared-view"), param=p.strip(), same=False)
         if m == l == n and W("A") is None and W("B") is None and g.rng.random() < 0.3 and name in ("mul", "addmul", "mul_mp", "addmul_mp"):
             same = True      # squaring route: both factors the same object
             lines = la + lc + ["call %s R %s A A%s" % (name, cn, p)]
@@ -681,7 +703,7 @@ def _compress_case(g):
 
 def _ple(name, has_k):
     def b(g, W, sz):
-        k = g.rng.choice([0, 0, 2, 3, 4, 5, 6, 7, 8]) if has_k else None
+        k = g.rng.choice([0, 0, 2, 3, 4, 5, 6, 7, 8, 1, 9]) if has_k else None   # 7k <= 64 is asserted (ple_russian.c:404)
         if REC_BIAS and name in ("ple", "pluq") and g.rng.random() < 0.35:
             m, n, ra, ka = _compress_case(g)
         else:
